@@ -6,7 +6,7 @@ REPO = os.environ.get("OP2_REPO", "/repo")
 LEAN = os.path.join(VERIF, "lean")
 BUILD = os.path.join(VERIF, "build")
 HARNESS = os.path.join(VERIF, "harness")
-EVIDENCE = os.path.join(VERIF, "evidence")
+EVIDENCE = os.environ.get("VERIF_EVIDENCE_DIR") or os.path.join(VERIF, "evidence")   # seeded-change runs write theirs elsewhere
 REPLAYS = os.path.join(VERIF, "replays")
 CORPUS = os.path.join(VERIF, "corpus")
 GUARD = "OP2UTILITY_VERIF"
